@@ -14,13 +14,15 @@ g("CodeALIGN", entry="CodeALIGN", defs=["-DVERIF_ALIGN_ARGS=1"], flags=["--signe
 GROUPS[-1]["name"] = "pc_CodeALIGN_1"
 g("CodeALIGN", entry="CodeALIGN", defs=["-DVERIF_ALIGN_ARGS=2"], flags=["--signed-overflow-check"], timeout=300)
 GROUPS[-1]["name"] = "pc_CodeALIGN_2"
+GROUPS.append(G("pc_SAVE_RESTORE", SRC, "h_SAVE_RESTORE", enforce=[], link=LINK, stubs=STUBS, unwind=10, timeout=600, dfcc=False, drop_unused=True, object_bits=12, defs=["-DVERIF_SAVE"],
+                functions=["CodeSAVE", "CodeRESTORE"], replace_calls=["SetCPUByType:verif_SetCPUByType"]))
 GROUPS.append(G("st_label_struct_elem", "harness/C01/h_asmlabel.c", "h_label_struct_elem", enforce=[], link=[], stubs=["stubs/gerr.c"], unwind=6, timeout=300, dfcc=False, drop_unused=True,
                 object_bits=12, functions=["LabelHandle", "LabelModify"], bounded="at most 2 unnamed struct/union levels inside the named structure"))
 TRUSTED_BASE = ["stubs/gerr.c", "evaluator oracle (EvalStrIntExpression*: arbitrary value/ok/flags)",
                 "ProgCounter/EProgCounter mirrored in the harness (asmsub.c one-liners)", "BookKeeping stub (counts)"]
 ASSUMPTIONS = ["ActPC < SegCountPlusStruct (type invariant of the segment selector)", "malloc/calloc never fail",
                "run-level statement by induction over statements (DESIGN.md 3/C10)"]
-NOT_COVERED = ["CodeSTRUCT/CodeENDSTRUCT", "CodeSAVE/CodeRESTORE", "WriteCode advance (as.c, see C04)"]
+NOT_COVERED = ["CodeSTRUCT/CodeENDSTRUCT and structure instantiation (only the field offset recorded by LabelHandle is under obligation)", "enum state of SAVE (saved, never restored by the code; not named by the property)", "WriteCode advance (as.c, see C04)"]
 EXPLANATION = ""
 
 MANIFEST = dict(
